@@ -68,6 +68,10 @@ func caseGen() *rapid.Generator[Case] {
 					}
 				}
 			}
+			if rapid.IntRange(0, 3).Draw(t, "customdeco") == 0 {
+				d := gen.DecoGen().Draw(t, "deco")
+				w.Deco = &d
+			}
 			c.Workers = append(c.Workers, w)
 		}
 		return c
